@@ -365,6 +365,49 @@ func run(c Case, rec *ev.Recorder) ev.Outcome {
 			}
 			nontrivial = true
 			classes = append(classes, "proofobj:"+name+":"+m.Op)
+		case "combo":
+			// two cooperating edits that keep the TOTAL number of elements the verifier consumes:
+			// k fewer (more) commitments / BSB22 commitments together with a public witness that is
+			// k elements longer (shorter)
+			p := zk.Clone(e.proof)
+			root := zk.Elem(p)
+			name := "Commitments"
+			if c.Backend == "plonk" {
+				name = "Bsb22Commitments"
+			}
+			l := root.FieldByName(name)
+			n := l.Len()
+			k := 1 + m.A%2
+			newLen := n - k
+			if m.B%2 == 1 || newLen < 0 {
+				newLen = n + k
+			}
+			nl := reflect.MakeSlice(l.Type(), newLen, newLen)
+			reflect.Copy(nl, l)
+			for i := n; i < newLen; i++ { // surplus entries: copies of a valid point
+				if n > 0 {
+					nl.Index(i).Set(l.Index(0))
+				} else {
+					nl.Index(i).Set(root.FieldByName(map[string]string{"groth16": "Krs", "plonk": "Z"}[c.Backend]))
+				}
+			}
+			l.Set(nl)
+			pub := append([]*big.Int(nil), e.pub...)
+			for len(pub) < len(e.pub)+(n-newLen) {
+				pub = append(pub, big.NewInt(int64(m.B)))
+			}
+			if d := len(e.pub) + (n - newLen); d < len(pub) && d >= 0 {
+				pub = pub[:d]
+			}
+			verr := e.verify(p, mkPub(q, pub))
+			if isPanic(verr) {
+				return ev.Outcome{Violation: where + fmt.Sprintf("Verify panicked on a proof with %d instead of %d %s and a public witness of %d instead of %d elements: ", newLen, n, name, len(pub), len(e.pub)) + firstLine(verr.Error())}
+			}
+			if verr == nil {
+				return ev.Outcome{Violation: where + fmt.Sprintf("Verify ACCEPTED a proof with %d instead of %d %s and a public witness of %d instead of %d elements", newLen, n, name, len(pub), len(e.pub))}
+			}
+			nontrivial = true
+			classes = append(classes, "combo:compensate")
 		case "witobj":
 			pub := append([]*big.Int(nil), e.pub...)
 			var w witness.Witness
@@ -504,8 +547,10 @@ func genMut(t *rapid.T) Mut {
 		if m.Op == "garbage" {
 			m.Data = rapid.SliceOfN(rapid.Byte(), 1, 40).Draw(t, "garbage")
 		}
-	case 4, 5:
+	case 4:
 		m.On, m.Op = "proofobj", rapid.SampledFrom([]string{"resize", "resize", "nil"}).Draw(t, "op")
+	case 5:
+		m.On, m.Op = "combo", "compensate"
 	case 6, 7:
 		m.On, m.Op = "witbytes", rapid.SampledFrom(witByteOps).Draw(t, "op")
 		if m.Op == "garbage" {
